@@ -248,6 +248,7 @@ def run(ctx):
     importlib.import_module("rules.c08").d1(db, rep, "D5-LOCKED-STATE")
 
     d6_region_fresh(db, rep)
+    region_entries_nonnull(db, rep, "D6b-REGION-NONNULL")
 
     # ---- D3 ------------------------------------------------------------------
     cp = db.func("orc_compiler_compile_program", "orccompiler")
@@ -400,5 +401,48 @@ def d6_region_fresh(db, rep):
                               "the region appended to the table comes from %s, every non-NULL result of which is a newly allocated object" % unparse(d)[:40],
                               "the region appended to orc_code_regions[] need not be a new object: %s. Live functions placed in the 'new' region then overlap those of an existing one" % why,
                               line=x.line)
+    if n < 1:
+        raise AnalysisBroken("no store into orc_code_regions[] found")
+
+
+def region_entries_nonnull(db, rep, rule):
+    """Every reader of the region table dereferences its entries unconditionally (the free-chunk search walks
+    orc_code_regions[i]->chunks), so a pointer stored into the table must be known non-NULL at the store: a must-fact from a
+    dominating test of that very variable.  orc_code_region_new() returns NULL whenever no executable mapping can be had."""
+    from flow import atom
+    tu = db.tu("orccodemem")
+    n = 0
+    readers = 0
+    for f in tu.main_functions():
+        for x in f.walk():
+            if x.k == "MemberExpr" and x.get("arrow") and strip_casts(x.c[0]) is not None:
+                b = strip_casts(x.c[0])
+                if b.k == "ArraySubscriptExpr" and access_path(b.c[0]) == "orc_code_regions":
+                    readers += 1
+                elif b.k == "DeclRefExpr" and b.get("dk") == "local":
+                    from flow import reaching_defs
+                    for d in reaching_defs(f, b.name, x):
+                        r = strip_casts(d.c[1] if d.k == "BinaryOperator" else d.c[0])
+                        if r is not None and r.k == "ArraySubscriptExpr" and access_path(r.c[0]) == "orc_code_regions":
+                            readers += 1
+    if readers < 1:
+        raise AnalysisBroken("no reader dereferencing orc_code_regions[] entries found")
+    for f in tu.main_functions():
+        fc = None
+        for x in f.walk():
+            if x.k == "BinaryOperator" and x.op == "=" and strip_casts(x.c[0]) is not None and strip_casts(x.c[0]).k == "ArraySubscriptExpr" \
+                    and access_path(strip_casts(x.c[0]).c[0]) == "orc_code_regions":
+                r = strip_casts(x.c[1])
+                if r is None or r.k != "DeclRefExpr":
+                    raise AnalysisBroken("orc_code_regions[...] = %s: not a local" % unparse(x.c[1]))
+                fc = fc or Facts(f)
+                ok = any(c[0] != "switch" and c[1] is True and access_path(strip_casts(c[0])) == r.name for c in fc.conds(x))
+                n += 1
+                rep.saw(f)
+                rep.check(ok, rule, where(f), "orc_code_regions[]<-%s nonnull" % r.name,
+                          "`%s` is known non-NULL where it is entered into the table (%d dereferencing readers)" % (r.name, readers),
+                          "%s enters `%s` into orc_code_regions[] (and counts it) without knowing that it is not NULL: orc_code_region_new() fails when no "
+                          "executable mapping can be obtained, and every later search of the table dereferences the entry - the next compile crashes instead of "
+                          "falling back to emulation" % (f.name, r.name), line=x.line)
     if n < 1:
         raise AnalysisBroken("no store into orc_code_regions[] found")
